@@ -181,6 +181,9 @@ func runC02(c *Cfg) {
 	if len(cliSample) > nCLI {
 		cliSample = cliSample[:nCLI]
 	}
+	// the hand-written idioms (among them the known crashes) go last, so that the cap on CLI
+	// failures is not used up by known findings before the random sample has run
+	sort.SliceStable(cliSample, func(i, j int) bool { return cliSample[i].kind != "idiom" && cliSample[j].kind == "idiom" })
 	failures = append(failures, c02RunCLI(c, cliSample)...)
 
 	// ---- minimise, classify, report ---------------------------------------------------
